@@ -437,7 +437,7 @@ def _run(scn, log: EventLog, stats: Stats):
                 stats.probe("re-evaluation-checked" + (":after-abort" if after == "after-abort" else ""))
                 if after == "after-abort":
                     aborted_since[(pi, backend)] = False
-            stats.state({"n_first": len(first)})
+            stats.state({"backend": backend, "canon": canon})
     finally:
         installed.uninstall()
         try:
